@@ -1,11 +1,14 @@
 //! Property registry: `run` dispatches a property id to its decision procedure; `replay_case`
 //! re-executes one recorded case.
 
+pub mod args;
 pub mod direction;
+pub mod history;
 pub mod inputs;
 pub mod matches;
 pub mod metamorphic;
 pub mod universe;
+pub mod values;
 #[cfg(feature = "likelysubtags")]
 pub mod likely;
 pub mod selftest;
@@ -17,8 +20,11 @@ use crate::engine::*;
 
 pub fn run(ctx: &Ctx) -> Option<Report> {
     Some(match ctx.prop.as_str() {
+        "C01" => values::run_c01(ctx),
         "C02" => inputs::run_c02(ctx),
         "C03" => inputs::run_c03(ctx),
+        "C04" => values::run_c04(ctx),
+        "C05" => values::run_c05(ctx),
         #[cfg(feature = "likelysubtags")]
         "C06" => likely::run_c06(ctx),
         #[cfg(feature = "likelysubtags")]
@@ -26,40 +32,38 @@ pub fn run(ctx: &Ctx) -> Option<Report> {
         #[cfg(feature = "likelysubtags")]
         "C08" => likely::run_c08(ctx),
         "C09" => metamorphic::run_c09(ctx),
+        "C10" => history::run_c10(ctx),
         "C11" => matches::run_c11(ctx),
+        "C12" => values::run_c12(ctx),
         "C13" => inputs::run_c13(ctx),
         "C14" => direction::run_c14(ctx),
         "C15" => subtags::run_c15(ctx),
+        "C17" => values::run_c17(ctx),
         #[cfg(all(unic_locale_verif, feature = "likelysubtags"))]
         "C18" => tables::run_c18(ctx),
         _ => return None,
     })
 }
 
-const SUBS: &[&str] = &[
-    "c01.panic",
-    "c02.value", "c02.to_string", "c02.accept", "c02.reject", "c02.error_kind", "c02.panic",
-    "c02.fromstr", "c02.canonicalize", "c02.parser_fn",
-    "c03.panic", "c03.must_accept", "c03.value", "c03.to_string", "c03.must_reject",
-    "c04.canon", "c04.wellformed", "c04.canonicalize", "c04.length", "c04.langid_wellformed", "c04.langid_canon",
-    "c05.locale", "c05.extensions", "c05.idempotent", "c05.langid",
-    "c13.superset", "c13.conv", "c13.prefix",
-    "c15.text", "c15.eq_str", "c15.accept", "c15.reject", "c15.panic", "c15.fromstr", "c15.tryfrom", "c15.und",
-    "c17.raw",
-    "c09.locale", "c09.langid",
-    "c11.panic", "c11.formula", "c11.symmetry", "c11.language", "c11.equality", "c11.monotone", "c11.locale", "c11.asref", "c11.reflexive",
-    "c14.setup", "c14.panic", "c14.cldr", "c14.cldr_base", "c14.script", "c14.default_ltr", "c14.variants",
-    "c06.panic", "c06.maximize", "c06.entry", "c06.inplace",
-    "c07.panic", "c07.keeps", "c07.fills", "c07.changed", "c07.idempotent", "c07.bool", "c07.false_unchanged", "c07.variants", "c07.extensions", "c07.setup",
-    "c08.panic", "c08.meaning", "c08.subtags", "c08.longer", "c08.first", "c08.idempotent", "c08.min_max", "c08.reference", "c08.bool", "c08.false_unchanged", "c08.variants", "c08.extensions", "c08.setup",
-];
-
 pub fn sub_name(s: &str) -> Option<&'static str> {
-    SUBS.iter().copied().find(|x| *x == s)
+    if s.is_empty() {
+        None
+    } else {
+        Some(Box::leak(s.to_string().into_boxed_str()))
+    }
 }
 
 pub fn replayable(sub: &str) -> bool {
-    sub_name(sub).is_some()
+    !sub.is_empty()
+}
+
+/// cases that carry everything needed to re-execute them (the others are aggregate findings:
+/// a table row, an injectivity count, a pair of representations met on two different routes)
+pub fn case_replayable(case: &Case) -> bool {
+    match case {
+        Case::Input(_) | Case::Ops { .. } => true,
+        Case::Text(t) => !t.starts_with("vpair:unreplayable:") && ["triple:", "pair:", "mpair:", "direction:", "arg:", "partsidx:", "vpair:"].iter().any(|p| t.starts_with(p)),
+    }
 }
 
 /// Re-executes one case; returns (sub, expected, observed) of every violation of the same
@@ -69,23 +73,36 @@ pub fn replay_case(_ctx: &Ctx, sub: &'static str, case: &Case) -> Vec<(String, S
     let mut l = Local::new();
     match case {
         Case::Input(b) => {
-            let f: Option<&inputs::Checker> = match &sub[..3] {
-                "c01" => Some(&inputs::check_c01_input),
-                "c02" => Some(&inputs::check_c02),
-                "c03" => Some(&inputs::check_c03),
-                "c04" => Some(&inputs::check_c04),
-                "c05" => Some(&inputs::check_c05),
-                "c13" => Some(&inputs::check_c13),
-                "c15" => Some(&subtags::check_c15),
-                "c17" => Some(&subtags::check_raw_roundtrip),
-                _ => None,
+            let fs: Vec<&inputs::Checker> = match &sub[..3] {
+                "c01" => vec![&inputs::check_c01_input],
+                "c02" => vec![&inputs::check_c02],
+                "c03" => vec![&inputs::check_c03],
+                "c04" => vec![&inputs::check_c04],
+                "c05" => vec![&inputs::check_c05, &values::replay_subtag_rt],
+                "c13" => vec![&inputs::check_c13],
+                "c15" => vec![&subtags::check_c15],
+                "c17" => vec![&subtags::check_raw_roundtrip, &values::check_c17_input],
+                _ => vec![],
             };
-            if let Some(f) = f {
+            for f in fs {
                 f(b, &mut l, &coll);
             }
         }
         #[cfg(feature = "likelysubtags")]
         Case::Text(t) if t.starts_with("triple:") => likely::replay(_ctx, sub, t, &coll),
+        Case::Ops { harness, init, ops } => {
+            match history::replay_ops(_ctx, harness, init, ops) {
+                Ok(faults) => {
+                    for f in faults {
+                        coll.push(0, Violation { sub: f.sub, class: f.class, case: case.clone(), expected: f.expected, observed: f.observed });
+                    }
+                }
+                Err(e) => eprintln!("replay: {}", e),
+            }
+        }
+        Case::Text(t) if t.starts_with("partsidx:") => values::replay_parts(t, &coll),
+        Case::Text(t) if t.starts_with("vpair:") => values::replay_vpair(t, &coll),
+        Case::Text(t) if t.starts_with("arg:") => args::replay(t, &coll),
         Case::Text(t) if t.starts_with("pair:") => matches::replay(t, &coll),
         Case::Text(t) if t.starts_with("mpair:") => metamorphic::replay(t, &coll),
         Case::Text(t) if t.starts_with("direction:") => direction::replay(_ctx, t, &coll),
